@@ -3,6 +3,7 @@ import concurrent.futures as cf
 import time
 
 import catalogue
+import common
 from common import BUILD, Machinery, build_drives, finish, run_drive
 
 ASSUME_COMMON = [
@@ -81,4 +82,4 @@ def report(prop, tier, seed, cfg, docs, t0):
         "notes": notes[:20],
         "explanation": cfg.get("explanation", ""),
     }
-    return finish(prop, tier, "model_checking", coverage, ASSUME_COMMON + cfg.get("assumptions", []), violations, t0, seed)
+    return finish(prop, tier, "model_checking", coverage, ASSUME_COMMON + [common.purity_scan()] + cfg.get("assumptions", []), violations, t0, seed)
